@@ -418,20 +418,50 @@ func probeValue(kind, def string) string {
 	return "verif-probe-" + def
 }
 
-// RealLoad runs the real config.Load through a real cobra command with the given arguments.
-func RealLoad(home string, args []string) (cfg config.Config, err error) {
+// ParsedCommand builds a real cobra command carrying every flag and parses the command line
+// `--home=<home> args…` into it (once: this is what a process does with its command).
+func ParsedCommand(home string, args []string) (*cobra.Command, error) {
+	cmd := NewCommand()
+	if err := cmd.ParseFlags(append([]string{"--" + config.FlagRootDir + "=" + home}, args...)); err != nil {
+		return nil, fmt.Errorf("flag-parse: %w", err)
+	}
+	return cmd, nil
+}
+
+// LoadThrough runs the real config.Load through the given (already parsed) command.
+func LoadThrough(cmd *cobra.Command) (cfg config.Config, err error) {
 	defer func() {
 		if r := recover(); r != nil {
 			err = fmt.Errorf("panic: %v", r)
 		}
 	}()
-	cmd := NewCommand()
-	if err := cmd.ParseFlags(append([]string{"--" + config.FlagRootDir + "=" + home}, args...)); err != nil {
-		return config.Config{}, fmt.Errorf("flag-parse: %w", err)
-	}
 	c, err := config.Load(cmd)
 	// the Config returned by Load shares memory with config.DefaultConfig (pointer fields): detach it
 	return DeepCopy(c), err
+}
+
+// RealLoad runs the real config.Load through a fresh real cobra command with the given arguments.
+func RealLoad(home string, args []string) (cfg config.Config, err error) {
+	cmd, err := ParsedCommand(home, args)
+	if err != nil {
+		return config.Config{}, err
+	}
+	return LoadThrough(cmd)
+}
+
+// TouchedFlags lists the flags of cmd that the command line did not give (`given`: by name) and
+// that nevertheless are marked Changed or no longer hold their registered default.
+func TouchedFlags(cmd *cobra.Command, given map[string]bool) []string {
+	var out []string
+	cmd.Flags().VisitAll(func(f *pflag.Flag) {
+		if given[f.Name] || f.Name == config.FlagRootDir {
+			return
+		}
+		if f.Changed || f.Value.String() != f.DefValue {
+			out = append(out, fmt.Sprintf("%s(changed=%v value=%q default=%q)", f.Name, f.Changed, f.Value.String(), f.DefValue))
+		}
+	})
+	return out
 }
 
 // ScrubEnv removes environment variables that viper's AutomaticEnv/BindEnv would read as a layer
